@@ -61,6 +61,17 @@ def eq0 : V → V
   | num k => bool (k == 0)
   | inf => bool false
   | _ => err
+/-- `np.logical_not` of one cell (a number is true when it is not `0`) -/
+def lnot : V → V
+  | num k => bool (k == 0)
+  | inf => bool false
+  | bool b => bool (!b)
+  | _ => err
+/-- `1 / x` of a float holding a natural number or `inf` (`1/0 = inf` with a warning, `1/inf = 0`); the result is a rational cell -/
+def recip : V → V
+  | num k => if k = 0 then inf else rat (1 / (k : Rat))
+  | inf => num 0
+  | _ => err
 /-- `.astype(float)` of a boolean -/
 def toNum : V → V
   | bool b => num (if b then 1 else 0)
@@ -88,12 +99,18 @@ inductive Ex
   | eyeLen (m : String)
   /-- `binarize(a, copy=True)` (its own body is tied in family `util` and folded into the generated file) -/
   | binarize (a : Ex)
+  /-- `binarize(a)`: the callee's default `copy=True` (part of the folded-in definition of `binarize`) -/
+  | binarizeD (a : Ex)
   | mul (a b : Ex)
   /-- `np.dot(a, b)` for matrix names -/
   | dot (a b : String)
   | ne0 (a : Ex)
   | eq0 (a : Ex)
   | toNum (a : Ex)
+  /-- `np.logical_not(a)` -/
+  | lnot (a : Ex)
+  /-- `1 / a` -/
+  | recip (a : Ex)
   deriving DecidableEq, Repr
 
 inductive Stmt
@@ -145,6 +162,7 @@ def eval (E : Env n) (i j : Fin n) : Ex → V
     | some _ => .num (if i = j then 1 else 0)
     | none => .err
   | .binarize a => V.bin (eval E i j a)
+  | .binarizeD a => V.bin (eval E i j a)
   | .mul a b => V.mul (eval E i j a) (eval E i j b)
   | .dot a b => match E.mat a, E.mat b with
     | some A, some B => sumProd A B i j
@@ -152,6 +170,8 @@ def eval (E : Env n) (i j : Fin n) : Ex → V
   | .ne0 a => V.ne0 (eval E i j a)
   | .eq0 a => V.eq0 (eval E i j a)
   | .toNum a => V.toNum (eval E i j a)
+  | .lnot a => V.lnot (eval E i j a)
+  | .recip a => V.recip (eval E i j a)
 
 def exec (E : Env n) : Stmt → Option (Env n)
   | .bind x e => some { E with mat := fun y => if y = x then some (AMat.ofFn fun i j => eval E i j e) else E.mat y }
